@@ -192,6 +192,21 @@ example :
     noOverlap 0 s.trace = true ∧ contextsOrderDone c 2 s.trace = true ∧
     s.current = 0 ∧ s.owner 0 = 0 ∧ s.ung = false := by decide
 
+/-- `machine.dispatch(ev)` is ONE locked call whose body is the sequence of the per-model events
+(re-entrant calls: they enter nothing, not even model 1's own context): thread 0 takes the machine
+lock once for both models, thread 1's event on model 1 — attempted between the two models — is
+processed after the whole dispatch -/
+example :
+    let c : Cfg := { hsm := false, base := [], extra := [(1, [.user 7])] }
+    let progs : Nat → List Op := fun t =>
+      if t = 0 then [.call 0 0, .call 1 1, .cb 1, .ret false, .call 2 2, .cb 2, .ret false, .ret false]
+      else if t = 1 then [.call 2 3, .cb 3, .ret false] else []
+    let s := runSched c (fun a m => 2 * m + a) (init c progs 0)
+      [0, 0, 0, 1, 0, 0, 1, 0, 1, 0, 0, 0, 1, 0, 0, 0, 1, 1, 1, 1, 1, 1, 1, 1]
+    cbLog s.trace = [(0, 1), (0, 2), (1, 3)] ∧ noOverlap 0 s.trace = true ∧
+    contextsOrderDone c 2 s.trace = true ∧
+    (s.trace.filter (· == Ev.enter 0 (.lock 0))).length = 1 ∧ s.ung = false := by decide
+
 /-- an event on a model that is not registered (flat machine) enters nothing: the run is flagged -/
 example :
     let c : Cfg := { hsm := false, base := [], extra := [], absent := [0] }
